@@ -92,38 +92,49 @@ def reOpen {β : Type} (s : State β) (env : Env) : State β :=
                          cur := .opened s1.nextIno }
   else s1
 
+/-- content of the file a directory entry points to -/
+def fileOf {β : Type} (s : State β) : Option Nat → List β
+  | some o => s.content o
+  | none => []
+
 /-- one iteration of the rotation loop for `i = j + 1`: `<name>j.log → <name>(j+1).log` if it exists -/
 def renameStep {β : Type} (s : State β) (j : Nat) : State β :=
   match s.names j with
   | none => s
   | some src =>
     { s with names := upd (upd s.names (j + 1) (some src)) j none,
-             dropped := s.dropped ++ (match s.names (j + 1) with
-                                      | some old => s.content old
-                                      | none => []) }
+             dropped := s.dropped ++ fileOf s (s.names (j + 1)) }
 
 /-- `for i := m; i >= 1; i-- { … }` -/
 def rotateFrom {β : Type} : Nat → State β → State β
   | 0, s => s
   | j + 1, s => rotateFrom j (renameStep s j)
 
+/-- `(*RollFileWriter).Write(v)` from `if w.currFile == nil { return }` on -/
+def writeTail {β : Type} (len : β → Nat) (reopen : Bool) (num size : Nat) (s1 : State β) (env : Env)
+    (v : β) : State β :=
+  match s1.cur with
+  | .nil => s1
+  | .closed _ =>
+    -- `n, _ := w.currFile.Write(v)` on a closed file: n = 0, the error is dropped
+    if s1.currSize ≥ size then
+      let s4 := rotateFrom (num - 1) { s1 with cur := s1.cur.close, currSize := 0 }
+      if reopen then reOpen s4 env else s4
+    else s1
+  | .opened i =>
+    let s2 : State β := { s1 with content := upd s1.content i (s1.content i ++ [v]),
+                                  currSize := s1.currSize + len v }
+    if s2.currSize ≥ size then
+      let s4 := rotateFrom (num - 1) { s2 with cur := s2.cur.close, currSize := 0 }
+      if reopen then reOpen s4 env else s4
+    else s2
+
 /-- `(*RollFileWriter).Write(v)`; `reopen` = the rotation branch ends with `reOpenFile` -/
 def write {β : Type} (len : β → Nat) (reopen : Bool) (num size : Nat) (s : State β) (env : Env)
     (v : β) : State β :=
-  let s := { s with written := s.written ++ [v] }
-  let s1 := if s.cur = .nil ∨ s.openTime + 10 < env.now then reOpen s env else s
-  match s1.cur with
-  | .nil => s1
-  | h =>
-    let s2 : State β := match h with
-      | .opened i => { s1 with content := upd s1.content i (s1.content i ++ [v]),
-                               currSize := s1.currSize + len v }
-      | _ => s1
-    if s2.currSize ≥ size then
-      let s3 := { s2 with cur := s2.cur.close, currSize := 0 }
-      let s4 := rotateFrom (num - 1) s3
-      if reopen then reOpen s4 env else s4
-    else s2
+  let s0 := { s with written := s.written ++ [v] }
+  let s1 := if s0.cur = .nil ∨ s0.openTime + 10 < env.now then reOpen s0 env else s0
+  writeTail len reopen num size s1 env v
 
 /-- a sequence of `Write` calls, each with its environment -/
 def writes {β : Type} (len : β → Nat) (reopen : Bool) (num size : Nat) :
@@ -132,10 +143,7 @@ def writes {β : Type} (len : β → Nat) (reopen : Bool) (num size : Nat) :
   | s, (env, v) :: rest => writes len reopen num size (write len reopen num size s env v) rest
 
 /-- content of the file at a roll index -/
-def fileAt {β : Type} (s : State β) (i : Nat) : List β :=
-  match s.names i with
-  | some ino => s.content ino
-  | none => []
+def fileAt {β : Type} (s : State β) (i : Nat) : List β := fileOf s (s.names i)
 
 /-- the files read back in roll order, oldest first: `<name>(k-1).log … <name>1.log <name>.log` -/
 def concatRoll {β : Type} (s : State β) : Nat → List β
